@@ -272,6 +272,19 @@ func sampleRun(sum *Summary, c json.RawMessage, sc *sCase, s, o float64, rng *ra
 			} else if want := math.Pow(2, float64(so.Mean.V[0])/float64(so.Mean.V[1])); !closeF(got, want, 0, 1e-12) {
 				sum.viol("GeoMean", c, "object %d: GeoMean(2^xs)=%v want %v", i+1, got, want)
 			}
+			if so.Weighted && !so.Bounds.NaN && so.Bounds.Lo > 0 {
+				// zero-weight values (possibly non-positive) carry no mass: the geometric mean of the mass-carrying values
+				num, den := 0.0, 0.0
+				for k, v := range x.Xs {
+					if x.Weights[k] > 0 {
+						num += x.Weights[k] * math.Log(v)
+						den += x.Weights[k]
+					}
+				}
+				if got, want := x.GeoMean(), math.Exp(num/den); !closeF(got, want, 0, 1e-12) {
+					sum.viol("GeoMean", c, "object %d (weighted, sorted=%v): GeoMean=%v want %v", i+1, x.Sorted, got, want)
+				}
+			}
 			if !so.Weighted && len(x.Xs) > 0 {
 				if got := stats.GeoMean(x.Xs); so.Bounds.Lo <= 0 {
 					if !math.IsNaN(got) {
